@@ -51,6 +51,8 @@ def case_strategy(draw):
     case["row_group"] = draw(st.sampled_from([1, 2, 5, max(1, c // 2), c, c + 3, n])) if source == "parquet" else None
     if mode == "ids":
         case["pid"] = draw(st.lists(st.integers(0, 2), min_size=n, max_size=n))
+    # patch_num next to centres or a patch-index column is documented to be ignored (no extra pass)
+    case["redundant_patch_num"] = mode != "num" and source != "random" and draw(st.sampled_from([False, False, True]))
     if source == "random":
         case["probe"] = draw(st.integers(min(n, 30), n)) if mode == "num" else None
     elif mode == "num":
@@ -155,6 +157,10 @@ def run_case(case):
         kw["patch_centers"] = AngularCoordinates(np.deg2rad([[case["ra"][0], case["dec"][0]]]))
     else:
         kw["patch_num"] = 2
+    if case.get("redundant_patch_num"):
+        kw["patch_num"] = 3
+        ck.cls("patch_num-given-but-overridden")
+    if case["mode"] == "num":
         if case["source"] != "random" and case.get("probe") is not None:
             kw["probe_size"] = case["probe"]
             ck.cls("explicit-probe-size" + (":sparse" if case["probe"] <= n // 10 else ""))
